@@ -8,7 +8,8 @@ from contracts.common import add_common, WF, cbreaks, gapdeg, terms_facts, T_idx
 LEMMAS = {"cbreaks_mono": lemma_cbreaks_mono, "cbreaks_break": lemma_cbreaks_break}
 
 VERIFY = ["trees.treeanalysis.gap_degree_node", "trees.treeanalysis.has_gaps",
-          "trees.treeanalysis.gap_type", "trees.trees.terminal_blocks"]
+          "trees.treeanalysis.gap_type", "trees.trees.terminal_blocks", "trees.treeanalysis.gap_degree",
+          "trees.treeanalysis.SentenceCount.run"]
 SHARDS = {"trees.trees.terminal_blocks": 8}
 
 TRUSTED = ["definition: gap degree of a node := cbreaks(nums(T(node)), |T|-1), the number of i with "
@@ -24,6 +25,7 @@ def build(reg):
     reg.add(Contract(
         target="trees.treeanalysis.gap_degree_node", prop="C16", args=dict(node=REF),
         requires=wf,
+        returns=lambda S, node: gapdeg(S.H, node),
         ensures={"set_based": lambda S, node, result: result == gapdeg(S.H, node)},
         result_type=INT,
         loops={0: dict(inv=lambda S: S.node_gap_deg == cbreaks(S.H, S.node, S.it))},
@@ -162,3 +164,30 @@ def build(reg):
         result_type=TList(TList(REF)),
         loops={0: dict(inv=tb_inv, types={"blocks": TList(TList(REF))})},
     ))
+
+
+    # ---------------------------------------------------------------- gap_degree (tree level) and the tasks
+    from contracts.common import wf_theory, desc, preorder_facts
+    from pyvc.sym import TRec, VRec
+
+    def gd_post(S, tree, result):
+        """the tree's gap degree is the maximum over its nodes"""
+        H = S.H
+        y = z3.Int(fresh_name("gy"))
+        P = H.pre(tree)
+        k = z3.Int(fresh_name("gk"))
+        return VBool(z3.And(
+            z3.ForAll([y], z3.Implies(z3.And(tobool(WF(H, VRef(y))), tobool(desc(H, tree, VRef(y)))),
+                                      gapdeg(H, VRef(y)).t <= result.t)),
+            z3.Exists([k], z3.And(0 <= k, k < P.n, gapdeg(H, P.get(k)).t == result.t))))
+
+    reg.add(Contract(
+        target="trees.treeanalysis.gap_degree", prop="C16", args=dict(tree=REF),
+        requires=lambda S, tree: conj(WF(S.H, tree), tree != None, wf_theory(S.H)),
+        ensures={"maximum_over_nodes": gd_post}, result_type=INT))
+
+    reg.add(Contract(
+        target="trees.treeanalysis.SentenceCount.run", prop="C16", args=dict(self=TRec(cnt=INT), tree=REF),
+        ensures={"counts_one_sentence": lambda S, self, tree, result:
+                 VBool(toint(S.final("self").fields["cnt"]) == toint(self.fields["cnt"]) + 1)},
+        result_type=INT))
